@@ -87,14 +87,16 @@ TRead ==
                   [] ev.kind = "eof" -> TryReadEof(c, ev.fds)
                   [] OTHER -> TryReadErr(c)
            isErr == r.res.k = "ParseError"
+           \* a caller that does not pop after this read (script option defer_pop): completed requests stay queued
+           pops == IF "pop" \in DOMAIN ev THEN ev.pop ELSE TRUE
            cons2 == IF ev.kind = "data" THEN consumed \o ev.bytes ELSE consumed
            souts2 == souts \o r.outs
            w == IF isErr THEN Whole(cons2, c.limit) ELSE [outs |-> <<>>, err |-> NoErr]
            c11reset == "c11" \in cmp /\ ev.res.k = "ParseError"
            bads == {f \in (IF armed THEN cmp ELSE {}) :
                       \/ f = "res" /\ ~ResEq(ev.res, r.res)
-                      \/ f = "popped" /\ ~ReqsEq(ev.popped, r.c.parsed)
-                      \/ f = "files" /\ ~FilesEq(ev.popped, r.c.parsed)
+                      \/ f = "popped" /\ pops /\ ~ReqsEq(ev.popped, r.c.parsed)
+                      \/ f = "files" /\ pops /\ ~FilesEq(ev.popped, r.c.parsed)
                       \* C12, judged on the implementation's own completion events (no grammar involved):
                       \* the first request delivered by this read carries every tag received since the
                       \* last delivery, in arrival order; further requests of the same read carry none
@@ -108,7 +110,7 @@ TRead ==
        IN \* C11 mode follows the implementation's own error reports: whenever it says
           \* ParseError, the specification continues from a NEW connection (same limit)
           /\ c' = IF c11reset THEN [InitConn(c.limit) EXCEPT !.respQ = r.c.respQ, !.respBuf = r.c.respBuf]
-                  ELSE PopAll(r.c)
+                  ELSE IF pops THEN PopAll(r.c) ELSE r.c
           /\ armed' = (armed \/ c11reset)
           /\ held' = IF ev.res.k = "ParseError" \/ Len(ev.popped) > 0 THEN <<>> ELSE held \o ev.fds
           /\ consumed' = IF isErr \/ c11reset THEN <<>> ELSE cons2
@@ -148,6 +150,21 @@ TWrite ==
                            got |-> [res |-> ev.res, calls |-> ev.calls, sent |-> ev.sent, pending |-> ev.pending, offered |-> ev.offered]])
     /\ UNCHANGED <<run, cmp, consumed, souts, obs, famid, famref, armed, held>>
 
+\* pop_parsed_request until empty by a caller that did not pop after every read (defer_pop).  The
+\* descriptor rule is judged with the specification supplying only WHICH read completed WHICH request
+\* (files_def: same number of requests, different descriptors); a different number of requests is a
+\* matter of the grammar and belongs to "popped".
+TPopAll ==
+    /\ Ev("popall")
+    /\ LET ev == Rec[l]
+           bads == {f \in cmp :
+                      \/ f = "popped" /\ ~ReqsEq(ev.popped, c.parsed)
+                      \/ f = "files_def" /\ Len(ev.popped) = Len(c.parsed) /\ ~FilesEq(ev.popped, c.parsed)}
+       IN /\ c' = PopAll(c)
+          /\ obs' = [obs EXCEPT !.reqs = @ \o StripFiles(ev.popped)]
+          /\ Report(bads, [exp |-> c.parsed, got |-> ev.popped])
+    /\ UNCHANGED <<run, cmp, consumed, souts, famid, famref, armed, held>>
+
 \* clear_write_buffer: everything pending is discarded, nothing is written
 TClear == /\ Ev("clear")
           /\ c' = ClearWrite(c)
@@ -180,7 +197,7 @@ TC11 == /\ Ev("c11cmp")
            IN Report(IF same THEN {} ELSE {"c11rel"}, [main |-> m, fresh |-> f])
         /\ UNCHANGED <<c, run, cmp, consumed, souts, obs, famid, famref, armed, held>>
 
-Next == TNew \/ TRead \/ TEnq \/ TWrite \/ TClear \/ TEnd \/ TC11
+Next == TNew \/ TRead \/ TEnq \/ TWrite \/ TClear \/ TPopAll \/ TEnd \/ TC11
 Spec == Init /\ [][Next]_vars
 
 \* every state of every validated trace satisfies the structural invariant of the machine
